@@ -18,7 +18,7 @@ class CHECK(Check):
     pid = "C12"
     entry = "BLOCKFILE"
     theorems = ["C12_total", "C12_accounting", "C12_roundtrip", "C12_dispatch", "C12_first_match", "C12_default_one_line",
-                "C12_found", "C12_found_literal", "C12_found_anchored_literal", "C12_found_alternation", "C12_found_empty", "C12_dispatch_denotation", "C12_pattern_star", "C12_pattern_repetition"]
+                "C12_found", "C12_found_literal", "C12_found_anchored_literal", "C12_found_alternation", "C12_found_empty", "C12_dispatch_denotation", "C12_pattern_star", "C12_pattern_repetition", "C12_block_extent"]
     rule = ("block lists of 1-4 raw block types (blocks that store the lines they consume: from the first line up to and "
             "including the first line where the end pattern is found, or the end of input) with begin/end patterns from a "
             "pool of regular expressions that match mid-line, are anchored, alternate and overlap (declaration order "
